@@ -5,13 +5,14 @@ import (
 	"fmt"
 	"math/rand"
 	"strings"
+	"time"
 
 	"gosrc.io/xmpp/stanza"
 )
 
 // C17: UnAckQueue vs Model/Queue.v
 type qOp struct {
-	Op string `json:"op"` // push pushshared pushpeek pop popn peek peekn empty droplast
+	Op string `json:"op"` // push pushshared pushpeek pushforeign pop popn peek peekn empty droplast
 	S  string `json:"s,omitempty"`
 	K  int    `json:"k,omitempty"`
 }
@@ -22,13 +23,21 @@ type c17In struct {
 
 type c17 struct{}
 
+// a Queueable that is not an *UnAckedStz: Push refuses it
+type c17Foreign struct{}
+
+func (c17Foreign) QueueableName() string { return "foreign" }
+
+// c17Deadline: a call on the queue that has not returned by then is blocked (a lock left held)
+const c17Deadline = 5 * time.Second
+
 func init() { register(c17{}) }
 
 func (c17) ID() string    { return "C17" }
 func (c17) RunFn() string { return "run_C17" }
 func (c17) Workers() int  { return 8 }
 func (c17) Rule() string {
-	return "random histories (0-60 ops) over push/pop/popn k/peek/peekn k/empty and DropLast (right after a push as Client.writeHeld calls it, twice in a row, after pops, on an empty queue), k in {-3..len+3} plus extreme values, payloads from a small pool; one push in three re-uses a caller-owned *UnAckedStz that is overwritten after the push, or re-queues the current head (q.Push(q.Peek())); distinct = distinct op-kind/k-class sequence; non-trivial = at least one pop or peek on a non-empty queue and at least 3 ops"
+	return "random histories (0-60 ops) over push/pop/popn k/peek/peekn k/empty and DropLast (right after a push as Client.writeHeld calls it, twice in a row, after pops, on an empty queue), and pushes of a Queueable of another type (refused with an error, the queue unchanged - and usable: the calls that follow must return what the FIFO returns; every call has a deadline, one that does not return is reported), k in {-3..len+3} plus extreme values, payloads from a small pool; one push in three re-uses a caller-owned *UnAckedStz that is overwritten after the push, or re-queues the current head (q.Push(q.Peek())); distinct = distinct op-kind/k-class sequence; non-trivial = at least one pop or peek on a non-empty queue and at least 3 ops"
 }
 
 func (c17) Gen(r *rand.Rand, tier string) []interface{} {
@@ -42,6 +51,9 @@ func (c17) Gen(r *rand.Rand, tier string) []interface{} {
 		c17In{Ops: []qOp{{Op: "pop"}, {Op: "popn", K: 3}, {Op: "peek"}, {Op: "peekn", K: 2}, {Op: "empty"}}},
 		c17In{Nil: true, Ops: []qOp{{Op: "push", S: "x"}, {Op: "pop"}, {Op: "popn", K: 1}, {Op: "peek"}, {Op: "peekn", K: 1}, {Op: "empty"}, {Op: "droplast"}}},
 		// DropLast: the number of the entry taken back is used again; twice in a row; on an empty queue; after the queue was emptied by pops
+		// a refused push leaves a usable queue behind
+		c17In{Ops: []qOp{{Op: "pushforeign"}, {Op: "push", S: "a"}, {Op: "pushforeign"}, {Op: "droplast"}, {Op: "push", S: "b"}, {Op: "pushforeign"}, {Op: "pop"}, {Op: "peekn", K: 2}, {Op: "empty"}}},
+		c17In{Nil: true, Ops: []qOp{{Op: "pushforeign"}, {Op: "push", S: "x"}, {Op: "empty"}}},
 		c17In{Ops: []qOp{{Op: "droplast"}, {Op: "push", S: "a"}, {Op: "push", S: "b"}, {Op: "droplast"}, {Op: "push", S: "c"}, {Op: "droplast"}, {Op: "droplast"}, {Op: "droplast"}, {Op: "push", S: "d"}}},
 		c17In{Ops: []qOp{{Op: "push", S: "a"}, {Op: "push", S: "b"}, {Op: "popn", K: 2}, {Op: "droplast"}, {Op: "push", S: "c"}, {Op: "pop"}, {Op: "push", S: "d"}, {Op: "droplast"}, {Op: "push", S: "e"}, {Op: "peekn", K: 5}}})
 	pool := []string{"", "a", "<iq id='1'/>", "<message>é</message>", "x\x00y", strings.Repeat("z", 70)}
@@ -51,8 +63,13 @@ func (c17) Gen(r *rand.Rand, tier string) []interface{} {
 		size := 0
 		pushBias := 2 + r.Intn(5)
 		drops := r.Intn(3) // 0: a history without DropLast; 1: now and then; 2: often
+		foreign := r.Intn(3) == 0
 		for j := 0; j < l; j++ {
 			var o qOp
+			if foreign && r.Intn(15) == 0 {
+				ops = append(ops, qOp{Op: "pushforeign"})
+				continue
+			}
 			if drops > 0 && r.Intn(18/drops) == 0 {
 				ops = append(ops, qOp{Op: "droplast"})
 				if size > 0 {
@@ -144,6 +161,56 @@ func queueableSx(q stanza.Queueable) Sx {
 	return L(Z(1), entrySx(q.(*stanza.UnAckedStz)))
 }
 
+// c17Call: one call on the queue and what it returned
+func c17Call(q *stanza.UnAckQueue, shared *stanza.UnAckedStz, o qOp) Sx {
+	var r Sx
+	switch o.Op {
+	case "pushshared":
+		shared.Id, shared.Stz = 555, o.S
+		if err := q.Push(shared); err != nil {
+			r = L(Z(98))
+		} else {
+			r = L()
+		}
+		shared.Id, shared.Stz = -1, "OVERWRITTEN-AFTER-PUSH" // the queue must hold its own copy
+	case "pushpeek":
+		if h := q.Peek(); h == nil {
+			r = queueableSx(q.Peek())
+		} else if err := q.Push(h); err != nil {
+			r = L(Z(98))
+		} else {
+			r = L()
+		}
+	case "push":
+		err := q.Push(&stanza.UnAckedStz{Id: 777, Stz: o.S})
+		if err != nil {
+			r = L(Z(98))
+		} else {
+			r = L()
+		}
+	case "pushforeign":
+		if err := q.Push(c17Foreign{}); err != nil {
+			r = L(Z(98))
+		} else {
+			r = L()
+		}
+	case "pop":
+		r = queueableSx(q.Pop())
+	case "popn":
+		r = queueablesSx(q.PopN(o.K))
+	case "peek":
+		r = queueableSx(q.Peek())
+	case "peekn":
+		r = queueablesSx(q.PeekN(o.K))
+	case "empty":
+		r = L(Z(3), B(q.Empty()))
+	case "droplast":
+		q.DropLast()
+		r = L()
+	}
+	return r
+}
+
 func (c17) Run(inp interface{}) Sx {
 	in := inp.(c17In)
 	var q *stanza.UnAckQueue
@@ -153,44 +220,18 @@ func (c17) Run(inp interface{}) Sx {
 	var steps []Sx
 	shared := &stanza.UnAckedStz{}
 	for _, o := range in.Ops {
+		o := o
+		done := make(chan Sx, 1)
+		go func() { done <- c17Call(q, shared, o) }()
 		var r Sx
-		switch o.Op {
-		case "pushshared":
-			shared.Id, shared.Stz = 555, o.S
-			if err := q.Push(shared); err != nil {
-				r = L(Z(98))
-			} else {
-				r = L()
-			}
-			shared.Id, shared.Stz = -1, "OVERWRITTEN-AFTER-PUSH" // the queue must hold its own copy
-		case "pushpeek":
-			if h := q.Peek(); h == nil {
-				r = queueableSx(q.Peek())
-			} else if err := q.Push(h); err != nil {
-				r = L(Z(98))
-			} else {
-				r = L()
-			}
-		case "push":
-			err := q.Push(&stanza.UnAckedStz{Id: 777, Stz: o.S})
-			if err != nil {
-				r = L(Z(98))
-			} else {
-				r = L()
-			}
-		case "pop":
-			r = queueableSx(q.Pop())
-		case "popn":
-			r = queueablesSx(q.PopN(o.K))
-		case "peek":
-			r = queueableSx(q.Peek())
-		case "peekn":
-			r = queueablesSx(q.PeekN(o.K))
-		case "empty":
-			r = L(Z(3), B(q.Empty()))
-		case "droplast":
-			q.DropLast()
-			r = L()
+		timer := time.NewTimer(c17Deadline)
+		select {
+		case r = <-done:
+			timer.Stop()
+		case <-timer.C:
+			// the call does not return: reported, the rest of the history cannot run
+			steps = append(steps, L(L(Z(97)), L()))
+			return LS(steps)
 		}
 		var es []Sx
 		if q != nil {
@@ -266,6 +307,8 @@ func (c17) Input(inp interface{}) Sx {
 			items[i] = L(Z(5))
 		case "droplast":
 			items[i] = L(Z(6))
+		case "pushforeign":
+			items[i] = L(Z(7))
 		}
 	}
 	return L(B(in.Nil), LS(items))
@@ -275,6 +318,10 @@ func (c17) Input(inp interface{}) Sx {
 func (c17) Oracle(inp interface{}, obs Sx) (string, string) {
 	in := inp.(c17In)
 	in.Ops = c17Normalise(in.Ops)
+	if n := len(obs.L); n > 0 && n <= len(in.Ops) && len(obs.L[n-1].L) == 2 && len(obs.L[n-1].L[0].L) == 1 && obs.L[n-1].L[0].L[0].Z == 97 {
+		o := in.Ops[n-1]
+		return fmt.Sprintf("step %d (%s k=%d): the call did not return within %v: the queue is blocked (a lock left held by an earlier call?)", n-1, o.Op, o.K, c17Deadline), "blocked-" + o.Op
+	}
 	if len(obs.L) != len(in.Ops) {
 		return "step count differs", "shape"
 	}
@@ -301,7 +348,7 @@ func (c17) Oracle(inp interface{}, obs Sx) (string, string) {
 			continue
 		}
 		var want []string // expected returned payloads
-		kind := 0         // 0 nothing, 1 one, 2 many, 3 bool
+		kind := 0         // 0 nothing, 1 one, 2 many, 3 bool, 4 refused
 		take := func(k int) int {
 			if k <= 0 {
 				return 0
@@ -313,6 +360,8 @@ func (c17) Oracle(inp interface{}, obs Sx) (string, string) {
 		}
 		before := append([]string{}, ref...)
 		switch o.Op {
+		case "pushforeign":
+			kind = 4 // refused: an error, nothing queued
 		case "push":
 			ref = append(ref, o.S)
 		case "pop":
@@ -366,6 +415,10 @@ func (c17) Oracle(inp interface{}, obs Sx) (string, string) {
 					return fmt.Sprintf("step %d (%s k=%d): entry %d differs from the reference FIFO", i, o.Op, o.K, j), "ret-" + o.Op
 				}
 			}
+		case 4:
+			if len(ret.L) != 1 || ret.L[0].Z != 98 {
+				return fmt.Sprintf("step %d: Push of an element that is not an *UnAckedStz must be refused with an error", i), "ret-pushforeign"
+			}
 		case 3:
 			if len(ret.L) != 2 || ret.L[0].Z != 3 || (ret.L[1].Z == 1) != (len(ref) == 0) {
 				return fmt.Sprintf("step %d: Empty() wrong", i), "ret-empty"
@@ -386,7 +439,7 @@ func (c17) Oracle(inp interface{}, obs Sx) (string, string) {
 				return fmt.Sprintf("step %d (%s): entry %d carries sequence number %d; it is number %d among the payloads pushed and not taken back", i, o.Op, j, after[j].id, popped+j+1), "ids-position-" + o.Op
 			}
 		}
-		if (o.Op == "peek" || o.Op == "peekn" || o.Op == "empty") && len(before) != len(after) {
+		if (o.Op == "peek" || o.Op == "peekn" || o.Op == "empty" || o.Op == "pushforeign") && len(before) != len(after) {
 			return fmt.Sprintf("step %d: %s modified the queue", i, o.Op), "peek-modifies"
 		}
 	}
